@@ -302,7 +302,28 @@ func bitsEq(c geom.Coord, p [2]model.F) bool {
 	return len(c) >= 2 && math.Float64bits(c[0]) == uint64(p[0]) && math.Float64bits(c[1]) == uint64(p[1])
 }
 
+// prop checks the four points as given, then the same four points paired into
+// segments the other two ways (the other edges and the diagonals of the same
+// quadrilateral, each against its own exact answer), then as given once more: an
+// answer depends on which points form a segment, not on which points were seen before.
 func prop(c Case) error {
+	if err := propOne(c); err != nil {
+		return err
+	}
+	for _, idx := range [][4]int{{0, 2, 1, 3}, {0, 3, 2, 1}} {
+		d := c
+		d.P = [4][2]model.F{c.P[idx[0]], c.P[idx[1]], c.P[idx[2]], c.P[idx[3]]}
+		if err := propOne(d); err != nil {
+			return fmt.Errorf("the same four points paired %v: %v", idx, err)
+		}
+	}
+	if err := propOne(c); err != nil {
+		return fmt.Errorf("asked again after the same points were paired differently: %v", err)
+	}
+	return nil
+}
+
+func propOne(c Case) error {
 	var P [4]exact.P2
 	for i := range P {
 		P[i] = ep(c.P[i])
